@@ -72,8 +72,8 @@ type UnitSpec struct {
 	Prefer         string                `json:"prefer"` // "" (pipe first) or a one-shot solver name tried first for hard arithmetic
 	PipeTimeoutMS  int                   `json:"pipe_timeout_ms"`
 	AssertTimeoutS int                   `json:"assert_timeout_s"`
-	CompileOnly    bool              `json:"compile_only"` // gen unit: the claim is "every generated package type-checks and builds"
-	Stubs          map[string]string `json:"stubs"` // function key -> harness function replacing it under the engine (environment stubs)
+	CompileOnly    bool                  `json:"compile_only"` // gen unit: the claim is "every generated package type-checks and builds"
+	Stubs          map[string]string     `json:"stubs"`        // function key -> harness function replacing it under the engine (environment stubs)
 	genBounds      map[string]any
 }
 
@@ -658,12 +658,39 @@ func compileOnlyUnit(id, scratch string, u *UnitSpec, res *unitResult, listed ma
 	ovFile := filepath.Join(scratch, "overlay_"+u.Name+".json")
 	writeOverlayJSON(ovFile, st.files)
 	cr := &CaseResult{Name: u.Name + "/compile", Stats: newCaseStats()}
-	for _, name := range st.accepted {
+	// build every accepted package (and its generated tests, if any) - 8 at a time
+	type buildRes struct {
+		out []byte
+		err error
+	}
+	results := make([]buildRes, len(st.accepted))
+	sem := make(chan struct{}, 8)
+	var bwg sync.WaitGroup
+	for i, name := range st.accepted {
+		bwg.Add(1)
+		go func(i int, name string) {
+			defer bwg.Done()
+			sem <- struct{}{}
+			defer func() { <-sem }()
+			pkg := modPath + "/internal/zzgen/" + u.Name + "_" + name
+			cmd := exec.Command("go", "build", "-overlay", ovFile, pkg)
+			cmd.Dir = repoDir
+			cmd.Env = goEnv()
+			out, err := cmd.CombinedOutput()
+			if err == nil && st.hasTests[name] {
+				cmd = exec.Command("go", "test", "-c", "-vet=off", "-overlay", ovFile, "-o", filepath.Join(scratch, "t_"+u.Name+"_"+name+".test"), pkg)
+				cmd.Dir = repoDir
+				cmd.Env = goEnv()
+				out, err = cmd.CombinedOutput()
+				os.Remove(filepath.Join(scratch, "t_"+u.Name+"_"+name+".test"))
+			}
+			results[i] = buildRes{out, err}
+		}(i, name)
+	}
+	bwg.Wait()
+	for i, name := range st.accepted {
 		pkg := modPath + "/internal/zzgen/" + u.Name + "_" + name
-		cmd := exec.Command("go", "build", "-overlay", ovFile, pkg)
-		cmd.Dir = repoDir
-		cmd.Env = goEnv()
-		out, err := cmd.CombinedOutput()
+		out, err := results[i].out, results[i].err
 		cr.Stats.Paths++
 		cr.Stats.BranchPoints++
 		if err == nil {
@@ -691,6 +718,28 @@ func compileOnlyUnit(id, scratch string, u *UnitSpec, res *unitResult, listed ma
 		os.WriteFile(filepath.Join(dir, "replay.sh"), []byte("#!/bin/sh\ncat "+dir+"/README.txt\n"), 0o755)
 		v.PathDesc = dir
 		res.confirmed = append(res.confirmed, v)
+	}
+	// a generator that panics instead of returning a diagnostic breaks the property as well
+	for _, rj := range st.rejected {
+		if i := strings.Index(rj, ": PANIC: "); i > 0 {
+			name := rj[:i]
+			v := Violation{Case: u.Name + "/" + name, Msg: "the generator panicked instead of returning a diagnostic: " + firstLines(rj[i+2:], 2), Kind: "build", Site: "generate " + name}
+			key := "C02/generator-panics:" + name
+			if listed[key] {
+				v.Knowns = []string{key}
+			}
+			replayCounter[id]++
+			dir := filepath.Join(outDir, "replays", id, fmt.Sprintf("%03d", replayCounter[id]))
+			os.RemoveAll(dir)
+			os.MkdirAll(dir, 0o755)
+			if b, err := os.ReadFile(st.specs[name]); err == nil {
+				os.WriteFile(filepath.Join(dir, "spec.yml"), b, 0o644)
+			}
+			os.WriteFile(filepath.Join(dir, "README.txt"), []byte("run the tree's generator (drivers/genrun) on spec.yml:\n"+rj+"\n"), 0o644)
+			os.WriteFile(filepath.Join(dir, "replay.sh"), []byte("#!/bin/sh\ncat "+dir+"/README.txt\n"), 0o755)
+			v.PathDesc = dir
+			res.confirmed = append(res.confirmed, v)
+		}
 	}
 	res.nCases = len(st.accepted)
 	res.cases = append(res.cases, cr)
